@@ -219,6 +219,10 @@ pub struct H2Req {
     /// connection and its other streams stay.
     #[serde(default)]
     pub cancel_ms: u64,
+    /// send the body without announcing its length (no content-length
+    /// header; the stream simply ends), as a client streaming an upload does
+    #[serde(default)]
+    pub no_length: bool,
 }
 
 #[derive(Clone, Debug, Serialize, Deserialize, PartialEq)]
